@@ -20,6 +20,7 @@ CONFIG = dict(
     trusted=["strconv.ParseUint/AppendUint base 10 are modelled by own digit functions (agreement exercised by the tie)"],
     assumptions=["AddSet arguments are sets built through the API (canonical)"],
     leanchecker=True,
+    shrink={"ops": (5, ";")},
     level_text="proof: Lean theorems about the mirrored number-set model (canonical form, membership = union, parse/print, enumeration) hold for all operation sequences; the model is tied to internal/imapnum and the public SeqSet/UIDSet wrappers by a differential check on every run",
     level_note="Trusted: Lean kernel; the differential harness and driver; strconv digit functions modelled. Theorems not yet proved are listed in DESIGN.md and validated by the oracle only.",
 )
